@@ -22,7 +22,7 @@ BYTES = {"{": b"{", "}": b"}", "[": b"[", "]": b"]", ":": b":", ",": b",", " ": 
          "-": b"-", "+": b"+", ".": b".", "ctl": b"\x01", "hi": "é".encode(), "bad": b"\xff", "ls": " ".encode(),
          "nl": b"\n", "tab": b"\t", "cr": b"\r", "del": b"\x7f", "emoji": "\U0001F600".encode(), "fffd": "�".encode(),
          "<": b"<", ">": b">", "&": b"&"}
-for c in "0123456789abcdefABCDEFlnrstu":
+for c in "0123456789abcdefABCDEFilnrstu":
     BYTES[c] = c.encode()
 CHUNKS = {"e20": "1" + "0" * 20, "e21": "1" + "0" * 21, "true": "true", "false": "false", "null": "null", "big": "922337203685477580", "str": "\"a\"", "u0041": "u0041", "u000a": "u000a",
           "ud83d": "ud83d", "ude00": "ude00", "q": "\"", "bs": "\\", "sp": " "}
@@ -232,8 +232,11 @@ def domain(rnd, thorough):
     for k1, k2 in itertools.combinations(KEYS, 2):
         for a in small[:3]:
             lvl1.append({"t": "obj", "k": [k1, k2], "c": [a, small[3]]})
+    # keys given as SYMBOLS (true and false among them): a key is written as a string whatever its spelling
+    for names in (["true"], ["false", "true"], ["a", "true"], ["nil"], ["null"]):
+        lvl1.append({"t": "obj", "k": [[ord(c) for c in n] for n in names], "ksym": [True] * len(names), "c": [small[i % len(small)] for i in range(len(names))]})
     vals += lvl1
-    pick = lvl1 if thorough else rnd.sample(lvl1, 60)
+    pick = lvl1 if thorough else rnd.sample(lvl1[:-5], 60) + lvl1[-5:]
     for x in pick:
         vals.append({"t": "arr", "c": [x]})
         vals.append({"t": "obj", "k": [[97]], "c": [x]})
@@ -246,8 +249,9 @@ def sort_keys(v):
     if v["t"] in ("arr", "list"):
         return dict(v, c=[sort_keys(x) for x in v["c"]])
     if v["t"] == "obj":
-        pairs = sorted(zip(v["k"], v["c"]), key=lambda kv: cps_valid_bytes(kv[0]))
-        return dict(v, k=[k for k, _ in pairs], c=[sort_keys(x) for _, x in pairs])
+        ks = v.get("ksym") or [False] * len(v["k"])
+        trip = sorted(zip(v["k"], v["c"], ks), key=lambda kv: cps_valid_bytes(kv[0]))
+        return dict(v, k=[k for k, _, _ in trip], c=[sort_keys(x) for _, x, _ in trip], ksym=[y for _, _, y in trip])
     return v
 
 
@@ -281,7 +285,8 @@ def to_driver(v):
         return {"t": "str", "b64": b64(cps_valid_bytes(v["s"]))}
     if t in ("arr", "list"):
         return {"t": t, "c": [to_driver(x) for x in v["c"]]}
-    return {"t": "obj", "k": [{"t": "str", "b64": b64(cps_valid_bytes(k))} for k in v["k"]], "c": [to_driver(x) for x in v["c"]]}
+    ks = v.get("ksym") or [False] * len(v["k"])
+    return {"t": "obj", "k": [{"t": "sym" if y else "str", "b64": b64(cps_valid_bytes(k))} for k, y in zip(v["k"], ks)], "c": [to_driver(x) for x in v["c"]]}
 
 
 def py_data(v):
